@@ -56,7 +56,7 @@ ColPos(L) == [j \in 1..L.nf |-> FirstPos(st.fc, ColIds(L)[j])]
 
 Res(why, next) == [why |-> why, next |-> next]
 CountIs(k) == IF Len(R) = k THEN {} ELSE {"number-of-results"}
-MapName(a) == IF a = 0 THEN "inc" ELSE "half"
+MapName(a) == CASE a = 0 -> "inc" [] a = 1 -> "half" [] OTHER -> "rot"
 Min2(a, b) == IF a < b THEN a ELSE b
 
 \* one deterministic single-result operation
